@@ -329,7 +329,7 @@ pub fn c27(args: &Args) -> i32 {
         }
         return (!v.is_empty()) as i32;
     }
-    let run = Run::new(args, "model_checking", 55.0, 1800.0);
+    let run = Run::new(args, "model_checking", 55.0, 1500.0);
     let max_lines = if run.quick() { 2 } else { 3 };
     let mut progs = programs(max_lines, &alpha);
     if run.quick() {
